@@ -230,7 +230,10 @@ fn is_identifier_continue(c: char) -> bool {
     (unicode_ident::is_xid_continue(c)
         || is_subscript_char(c)
         || is_currency_char(c)
-        || is_other_allowed_identifier_char(c))
+        || is_other_allowed_identifier_char(c)
+        // prime symbols can follow a short prefix, e.g. 'm″' (milliarcsecond)
+        || c == '′'
+        || c == '″')
         && !is_exponent_char(c)
         && c != '·'
         && c != '⋅'
